@@ -167,7 +167,7 @@ def gen_rt(ctx, h1):
                     "nice=%d" % rng.choice([8, 16, 32]), "depth=%d" % rng.choice([0, 4]), "pb=%d" % rng.randrange(5),
                     gen_spec(rng, rng.randrange(250000, 450000), rng.choice(["rnd", "rnd", "inc"]))] + slice_key(rng, 0.3))
     # -- random part ------------------------------------------------------------------------------
-    n_random = 700 if quick else 4200
+    n_random = 560 if quick else 4200
     for _ in range(n_random):
         api = rng.choice(["easy", "sbuf", "stream", "alone", "raw", "raw", "rawbuf", "micro", "mt"])
         size = small_size(rng)
@@ -293,7 +293,7 @@ def gen_trace(ctx, h1, work):
             force=dict(dict=rng.choice([65536, 1 << 20]), mode=2, mf=rng.choice(["bt2", "bt2", "bt3"]), nice=rng.choice([8, 16, 32]),
                        depth=rng.choice([0, 4]), pb=rng.randrange(5), lp=rng.randrange(3), lc=rng.randrange(3)))
     # random
-    for _ in range(380 if quick else 2200):
+    for _ in range(300 if quick else 2200):
         r = rng.random()
         size = small_size(rng)
         if not quick and rng.random() < 0.05:
@@ -505,7 +505,16 @@ def run(ctx):
     # with dumped payloads, decoded by the model decoder only
     tr_total = tr_mism = 0
     t2 = time.time()
-    work = os.path.join(vlib.CACHE, "c01-work", "seed%d-%s" % (ctx.seed, ctx.tier))
+    wroot = os.path.join(vlib.CACHE, "c01-work")
+    os.makedirs(wroot, exist_ok=True)
+    for d in os.listdir(wroot):                 # leftovers of interrupted runs
+        dp = os.path.join(wroot, d)
+        try:
+            if time.time() - os.path.getmtime(dp) > 6 * 3600:
+                shutil.rmtree(dp, ignore_errors=True)
+        except OSError:
+            pass
+    work = os.path.join(wroot, "seed%d-%s-%d" % (ctx.seed, ctx.tier, os.getpid()))
     shutil.rmtree(work, ignore_errors=True)
     os.makedirs(work, exist_ok=True)
     cases = gen_trace(ctx, h1, work)
